@@ -12,7 +12,7 @@ git -C /repo worktree add --detach "$ROOT/repo" HEAD -q || exit 2
 rsync -a --exclude harness/target --exclude .git --exclude evidence --exclude seeded /verif/ "$ROOT/verif/"
 mkdir -p "$ROOT/verif/evidence"
 PROPS="$@"; [ -n "$PROPS" ] || PROPS=$(python3 -c "import json;print(' '.join(c['property_id'] for c in json.load(open('/verif/MANIFEST.json'))['checks']))")
-export CARGO_TARGET_DIR=/tmp/mt/target SMT_REPO="$ROOT/repo"
+export CARGO_TARGET_DIR=${MT_TARGET:-/tmp/mt/target} SMT_REPO="$ROOT/repo"
 {
 echo "== $N at verif $(git -C /verif rev-parse --short HEAD), repo $(git -C /repo rev-parse --short HEAD), tier ${TIER:-quick}"
 for P in $PROPS; do
